@@ -57,6 +57,18 @@ class Obj:
         return 'Obj(%s)' % ', '.join('%s=%r' % kv for kv in self.__dict__.items())
 
 
+class NoGet:
+    """a type that is registered as NOT supporting get (see the registration below)"""
+    def __init__(self):
+        self.inner = 1
+
+    def __repr__(self):
+        return 'NoGet()'
+
+
+glom_pkg.register(NoGet, get=False)
+
+
 def _double(x):
     return x * 2
 
@@ -104,6 +116,15 @@ def pool():
     add('coalesce-fail', data, lambda: Coalesce('zz', T['yy']))
     add('call', data, lambda: Call(_collect, args=(T['a']['d'], 'lit'), kwargs={'k': T['n']}))
     add('invoke', data, lambda: Invoke(_collect).specs('a.d', k='a.b.0').constants(9).star(args='a.b'))
+    # kwargs taken from a dict owned by the target, then extended by later stages of the same Invoke
+    add('invoke-star-kwargs', data, lambda: Invoke(_collect).star(kwargs='w.x').constants(z=1).specs(q='a.d'))
+    add('invoke-two-stars', data, lambda: Invoke(_collect).star(kwargs='w.x').star(kwargs='w.z'))
+    # a type registered (at import, in baseline and history processes alike) with get=False: plain access is UnregisteredTarget,
+    # wildcards step over it - in either order, any number of times
+    add('noget-path', lambda: {'n': NoGet(), 'm': {'k': 1}}, lambda: 'n.inner')
+    add('noget-star', lambda: {'n': NoGet(), 'm': {'k': 1}}, lambda: '**')
+    add('noget-star-k', lambda: {'n': NoGet(), 'm': {'k': 1}}, lambda: '*.k')
+    add('noget-coalesce', lambda: {'n': NoGet()}, lambda: Coalesce('n.inner', skip_exc=glom_pkg.PathAccessError, default='dflt'))
     add('spec', data, lambda: Spec(('a', 'd')))
     add('ref', lambda: {'v': 1, 'kids': [{'v': 2, 'kids': []}, {'v': 3, 'kids': [{'v': 4, 'kids': []}]}]},
         lambda: Ref('n', {'v': 'v', 'kids': ('kids', [Ref('n')])}))
@@ -279,6 +300,7 @@ def history(col, rng, P, baselines, length, contract):
     last_pair = None
     n_unrel = 0
     glommer = Glommer()
+    glommer.register(NoGet, get=False)     # (the same registrations as the module-level registry has)
     forced = rng.randint(3, max(4, length // 4))
     for step in range(length):
         r = rng.random()
